@@ -271,7 +271,11 @@ def run(tier, seed):
         drv = []
         if not feature:
             extra = {"c19nostd": {"Cargo.toml": "[package]\nname = \"c19nostd\"\nversion = \"0.0.0\"\nedition = \"2021\"\n[dependencies]\nentrait = { path = \"%s\" }\n" % core.REPO,
-                                  "src/lib.rs": NOSTD_LIB}}
+                                  "src/lib.rs": NOSTD_LIB},
+                     # the same library as a crate that must not have `std` anywhere in its dependency graph: it brings its
+                     # own panic handler (firmware style); nothing depends on it, it only has to build
+                     "c19bare": {"Cargo.toml": "[package]\nname = \"c19bare\"\nversion = \"0.0.0\"\nedition = \"2021\"\n[dependencies]\nentrait = { path = \"%s\" }\n" % core.REPO,
+                                 "src/lib.rs": NOSTD_LIB + "\n#[panic_handler]\nfn __c19_panic(_: &::core::panic::PanicInfo) -> ! { loop {} }\n"}}
             drv = [Case("c19_nostd_driver", NOSTD_DRIVER, meta={"family": "no_std"})]
         st = selftest.case("selftest_c19" + label)
         ws = core.Workspace(PROP, label, unimock=feature, deps=("async-trait",), extra_crates=extra)
@@ -281,7 +285,7 @@ def run(tier, seed):
         try:
             b = ws.build()
         except core.Inconclusive as e:
-            if "c19nostd" not in str(e):
+            if "c19nostd" not in str(e) and "c19bare" not in str(e):
                 raise
             # the #![no_std] library itself does not compile: that is the no_std clause failing, not a harness problem.
             # Record it and judge the rest of the corpus without the library.
